@@ -543,6 +543,9 @@ func (e *Env) ident(name string, want *Sort) T {
 		return T{S: "#xffffffffffffffff", So: SBV64}
 	case "alloc":
 		return T{S: g.stGet(e.st, "alloc", SMath), So: SMath}
+	case "heap_bytes":
+		so := g.elemHeapSort(SBV8)
+		return T{S: g.stGet(e.st, "E.uint8", so), So: so}
 	}
 	if gv, ok := g.cs.Ghosts[name]; ok {
 		so := rawSort(gv.Sort)
@@ -840,6 +843,17 @@ func (e *Env) call(v *ast.CallExpr, want *Sort) T {
 		}
 		n := *e
 		n.st = e.old
+		t := n.compile(v.Args[0], want)
+		e.errs = n.errs
+		return t
+	case "head":
+		// the value of an expression at the head of the loop iteration being closed (step lemmas)
+		if g.curHead == nil || g.headSt[g.curHead] == nil {
+			return e.fail("head(): only meaningful in a step lemma")
+		}
+		n := *e
+		n.st = g.headSt[g.curHead]
+		n.vars = g.headVars[g.curHead]
 		t := n.compile(v.Args[0], want)
 		e.errs = n.errs
 		return t
